@@ -35,10 +35,11 @@ func init() {
 			{Name: "cause-x-load", Fn: scnC08, Weight: 1, Group: len(c08Causes) * len(c08Loads)},
 		},
 		Rule: "matrix cause (14: EOF / EIO on either pipe, malformed audit line, output write error on a UserLogin / a UserAction / a hold-queue flush, either input path not a pipe or missing, " +
-			"cancellation as stand-in for SIGTERM/SIGINT, invalid login) x load (idle, mid-traffic, saturated = audit writer keeps the pipe non-empty while the line consumer is starved until the internal " +
-			"buffer is full; capacities {1,2,8,64,10000}) enumerated within each group of runs, x schedule policy x fault instant; after the fault a fair schedule with the clock advancing at quiescence: " +
-			"RunNamedPipe must return within 5 simulated seconds and 50000 steps, with a non-nil error for failure causes; non-trivial = the fault fired while the daemon was running (and, for saturated, with the buffer full); " +
-			"distinct = distinct (cause, load, capacity, fault instant, schedule hash)",
+			"cancellation as stand-in for SIGTERM/SIGINT, invalid login) x load (idle; mid-traffic; saturated = the line consumer is starved until the internal buffer is full, capacities {1,2,8,64,10000}, and the audit writer " +
+			"keeps feeding after the fault; sustained = the audit writer never pauses; other-pipe-without-writer = the pipe not involved in the cause has no writer attached yet) enumerated within each group of runs, " +
+			"x schedule policy x fault instant x (taped) one more accepted login right after the fault; after the fault a fair schedule (run-to-block, or uniformly random turns with the line consumer as the slow side under load) " +
+			"with the clock advancing at quiescence: RunNamedPipe must return within 5 simulated seconds and 50000 steps, with a non-nil error for failure causes; runs in which the injected write failure never happened are not judged; " +
+			"non-trivial = the fault fired while the daemon was running (and, for saturated, with the buffer full); distinct = distinct (cause, load, capacity, fault instant, schedule hash)",
 		Quick: 70 * 40, Thorough: 70 * 2500,
 	})
 }
